@@ -703,6 +703,11 @@ def main():
     alld = sorted({b for c in allc for b in c.dbls})
     for b in alld:
         dq.append("G %d %016x" % (P, b))
+    # the classical fact used for the digit obligation, evaluated on the executable model:
+    # 17 significant digits identify every normal binary64 value
+    norm = [b for b in alld if (1 << 52) <= (b & 0x7fffffffffffffff) < (0x7ff << 52)]
+    extra17 = [(rng.getrandbits(1) << 63) | (rng.randint(1, 2046) << 52) | rng.getrandbits(52) for _ in range(2000 if not chk.thorough else 40000)]
+    norm17 = norm + extra17
     jobs = []     # (case, kind, payload)
     for c in allc:
         r_ = res[c.cid]
@@ -747,6 +752,9 @@ def main():
                 if ln and not ln.startswith(b"/") and not ln.startswith(b"#") and not ln.startswith(b"META ") and b"/" not in first_token_raw(ln):
                     jobs.append((c, "L", ln))
                     dq.append("L %d %d %s" % (10 if perm else std, 0 if perm else 1, hx(ln + b"\n")))
+    n_main = len(dq)
+    for b in norm17:
+        dq.append("G 17 %016x" % b)
     rc2, out2 = vlib.sh([drv], inp=("\n".join(dq) + "\n").encode(), timeout=3000)
     dl = out2.split("\n")
     if rc2 != 0 or len(dl) < len(dq):
@@ -767,6 +775,16 @@ def main():
         else:
             lres[(c.cid, pay)] = l
 
+    bad17 = [b for b, l in zip(norm17, dl[n_main:]) if l.split()[1:] != ["1"]]
+    if bad17:
+        chk.violation("model/digits17", "the executable printf/strtod model does not read back the normal double %016x printed with 17 significant digits" % bad17[0],
+                      {"kind": "model", "bits": "%016x" % bad17[0]}, found=False)
+    chk.cov["digits17_model_checked"] = len(norm17)
+    chk.notes.append("digit obligation: src/flush.c prints doubles with %d significant digits (%s branch of double_sites_roundtrip_digits_verdict); "
+                     "hidden-entry version rule %s (%s branch of version_sound_hidden_verdict)" % (
+                         P, "statement" if P >= 17 else "refutation",
+                         "skipped for hidden entries" if "HIDDEN_SKIPS 1" in tout else "applied to hidden entries",
+                         "refutation" if "HIDDEN_SKIPS 1" in tout else "statement"))
     # ---- judge
     n_eval = 0
     nontriv = set()
